@@ -1234,6 +1234,7 @@ package vm
 //@   requires memInv(uint64(len(callContext.memory.store)), callContext.memory.lastGasCost)
 //@   ensures [len]  len(callContext.stack.data) == old(len(callContext.stack.data)) - 2
 //@   ensures [ret]  result1 == nil && len(result0) == 0
+//@   ensures [static] ghost(stver) == old(ghost(stver))
 
 // ---------------------------------------------------------------------------------------------
 // The interpreter loop (C11, C12). Every jump-table entry is called through the three function-valued
@@ -1308,3 +1309,67 @@ package vm
 //@   loop 0: invariant in.jumpTable == old(in.jumpTable) && samecomp("vm.operation")
 //@   ensures [depth]    in.evm == old(in.evm) && in.evm.depth == old(in.evm.depth)
 //@   ensures [readonly] in.readOnly == old(in.readOnly)
+
+// ---------------------------------------------------------------------------------------------
+// State-writing opcodes and the `writes` flags of the jump table (C12). An entry that may change the world
+// state either refuses to run in a static frame itself (ensures [static]) or demands a non-static context
+// (requires [notstatic]); the interpreter establishes the latter only for entries flagged `writes`, so the
+// table constructors must flag every entry whose function demands it (needswrite).
+
+//@ func opSstore
+//@   property C12
+//@   requires callContext != nil && callContext.stack != nil && callContext.contract != nil && interpreter != nil && interpreter.evm != nil && typeid(interpreter.evm.StateDB) != 0 && len(callContext.stack.data) >= 2
+//@   requires [notstatic] !interpreter.readOnly
+//@   ensures [len] len(callContext.stack.data) == old(len(callContext.stack.data)) - 2
+//@   ensures [ret] result1 == nil && len(result0) == 0
+//@   modifies callContext.stack.data, ghost(stver)
+
+//@ func opTstore
+//@   property C12
+//@   requires scope != nil && scope.stack != nil && scope.contract != nil && interpreter != nil && interpreter.evm != nil && typeid(interpreter.evm.StateDB) != 0 && len(scope.stack.data) >= 2
+//@   ensures [static] interpreter.readOnly ==> ghost(stver) == old(ghost(stver)) && result1 == ErrWriteProtection
+//@   modifies scope.stack.data, ghost(stver)
+
+//@ func opSuicide
+//@   property C12
+//@   requires callContext != nil && callContext.stack != nil && callContext.contract != nil && interpreter != nil && interpreter.evm != nil && typeid(interpreter.evm.StateDB) != 0 && len(callContext.stack.data) >= 1
+//@   requires [notstatic] !interpreter.readOnly
+//@   ensures [ret] result1 == nil && len(result0) == 0
+
+//@ func makeLog$1
+//@   option trusted
+//@   requires [notstatic] !interpreter.readOnly
+//@   modifies callContext.stack.data, callContext.logs, ghost(stver)
+
+//@ func opCreate
+//@   option trusted
+//@   requires [notstatic] !interpreter.readOnly
+
+//@ func opCreate2
+//@   option trusted
+//@   requires [notstatic] !interpreter.readOnly
+
+// Rangers stake opcodes: they lock, unlock and queue stake in the account database through
+// service.MinerManagerImpl.AddStake / service.RefundManagerImpl.GetRefundStake and Add (string/decimal
+// conversions inside are outside the subset: the bodies are trusted, the demand is what matters here).
+//@ func opStake
+//@   option trusted
+//@   requires [notstatic] !interpreter.readOnly
+
+//@ func opUnStake
+//@   option trusted
+//@   requires [notstatic] !interpreter.readOnly
+
+//@ func opUnStakeAll
+//@   option trusted
+//@   requires [notstatic] !interpreter.readOnly
+
+// The flags of the Rangers entries (proposal 014): every entry whose function demands a non-static context is
+// flagged `writes`. (AUTHCALL, which can transfer value, is not covered.)
+//@ func doProposal014
+//@   property C12
+//@   requires instructionSet != nil
+//@   ensures [stake]      instructionSet[STAKE] != nil && (@needswrite(instructionSet[STAKE].execute) ==> instructionSet[STAKE].writes)
+//@   ensures [unstake]    instructionSet[UNSTAKE] != nil && (@needswrite(instructionSet[UNSTAKE].execute) ==> instructionSet[UNSTAKE].writes)
+//@   ensures [unstakeall] instructionSet[UNSTAKEALL] != nil && (@needswrite(instructionSet[UNSTAKEALL].execute) ==> instructionSet[UNSTAKEALL].writes)
+//@   ensures [readers]    instructionSet[GETSTAKE] != nil && instructionSet[STAKENUM] != nil && instructionSet[PRINTF] != nil && instructionSet[AUTH] != nil && instructionSet[AUTHCALL] != nil
